@@ -1,6 +1,7 @@
 from core import Case, hexs
 from gen_util import *
 PID = "C02"
+SOURCE_TIE = ["tie_hmac_pads", "tie_hex_lut"]   # coq_tie/Tie_Source.v against Gen_Source.v regenerated from /repo on every run
 DRIVER = "drv_pure"
 RULE = ("get_hmac: pointer / vector<uint8_t> / vector<char> forms (binary) and vector-key / secure_buffer-key / string-key forms "
         "x is_hex x is_upper, vs model get_hmac_raw / get_hmac_str; rejected calls (overflow_error) interleaved so that per-thread or "
